@@ -98,7 +98,7 @@ struct RealmBase
 			const T *rng(static_cast<const T*>(_range)), *res(std::lower_bound(rng, rng + _sz, what));
 			return res != rng + _sz && !(what < *res) ? res - rng : -1;
 		}
-		return 0;
+		return is_valid(what) ? 0 : -1;
 	}
 
 	/*! Printer helper
